@@ -104,6 +104,7 @@ class Proof:
     def __init__(self, prefix: str, hyps: Sequence, cex_builder=None, engine="symrun", seed=0,
                  timeout_ms=None, nice=None):
         self.nice = nice
+        self.generic = {}
         self.prefix = prefix
         self.hyps = list(hyps)
         self.facts: Dict[str, object] = {}
@@ -155,6 +156,44 @@ def _proof_have_cert(self, name, goal, combos, optional=False):
 
 
 Proof.have_cert = _proof_have_cert
+
+
+def _proof_have_instance(self, name, lemma_name, pairs):
+    """Universal instantiation of an earlier fact that was proved over generic symbols which occur in NO hypothesis
+    (checked): substituting terms for those symbols yields a consequence.  pairs: [(generic symbol, term), ...]"""
+    t0 = time.time()
+    lem = self.facts.get(lemma_name)
+    status, reason = "discharged", ""
+    if lem is None:
+        status, reason = "undecided", f"lemma {lemma_name} is not an established fact"
+    else:
+        gen = {str(a) for a, _ in pairs}
+        for h in self.hyps:
+            if gen & set(free_consts(h)):
+                status, reason = "undecided", "a generic symbol of the lemma occurs in a hypothesis: instantiation would be unsound"
+                break
+        if status == "discharged" and not self.generic.get(lemma_name):
+            status, reason = "undecided", "lemma was not registered as generic (proved from hypotheses free of its symbols)"
+    inst = z3.substitute(lem, *pairs) if lem is not None else None
+    o = ob(f"{self.prefix}/{name}", status, kind="proof", engine=self.engine, backend="instantiation", secs=time.time() - t0, reason=reason,
+           sample={"lemma": lemma_name, "substituted": len(pairs)})
+    self.obs.append(o)
+    if status == "discharged":
+        self.facts[name] = inst
+        return True
+    return False
+
+
+def _proof_have_generic(self, name, goal, by, backends=("gb", "z3"), timeout_ms=None):
+    """a lemma over generic symbols, proved from `by` only (hypotheses that do not mention the path): may be instantiated later"""
+    ok = self.have(name, goal, by=list(by) + [z3.BoolVal(True)], backends=backends, timeout_ms=timeout_ms)
+    if ok:
+        self.generic[name] = True
+    return ok
+
+
+Proof.have_instance = _proof_have_instance
+Proof.have_generic = _proof_have_generic
 
 
 # ---------------------------------------------------------------------------
